@@ -71,16 +71,17 @@ CHECKS = {
    technique='Coq refinement proof with environment invariant (flat locals vs lexical scoping) + differential correspondence',
    ref='DESIGN.md §6 C05'),
  'C06': dict(
-   category='translation_validation',
-   text='The executable Coq model (Model.exec: Call / RefL / argument passing exactly as argumentize and _ParseFunction do it — rule '
-        'function, local value, inline-Python value, wrapped literal, lifted argument function with its sorted free variables, '
-        'arity check at invocation, keyword binding) is compared with the implementation on a catalogue of templates and call sites '
-        '(literal, compound, rule, class, nested, recursive, keyword, value and captured-name arguments, several instantiations at '
-        'one position) in unnamed and named grammars; and every call site with a finite expansion is compared, on the '
-        'implementation, with the hand-expanded grammar (the property\'s own wording). No refinement theorem to a substitution '
-        'specification is proved yet for Call/RefL (the specification says Raise = no claim there).',
-   note=TB + 'level is translation validation, not proof: DESIGN.md explains what the missing theorem is. Known findings: names used only in inline Python / counts of an argument are not captured (three catalogue sites).',
-   technique='differential validation of an executable Coq model and of hand expansions (no theorem for calls yet)',
+   text='Coq theorem C06_calls_refine_spec: the refinement theorem covers Call and RefL. The specification gives T(args) the meaning '
+        '"body of T in a scope of its own with every parameter bound (positionally, then by keyword) to its argument", an argument '
+        'expression being a closure over the values of the caller\'s names it mentions (the argument substituted for the parameter, '
+        'evaluated where and when the body uses it); the model passes arguments as the generated code does (argumentize, lifted '
+        'functions with sorted free variables, _ParseFunction, arity check, fresh callee locals). Hence no TypeError/NameError from '
+        'the calling convention, exact values and positions, and independence of instantiations (caller locals untouched). '
+        'Correspondence: catalogue of templates x call sites (literal, compound, rule, class, nested, recursive, keyword, value, '
+        'captured names, several instantiations at one position) x {unnamed, named}; each site with a finite expansion is also '
+        'compared with the hand-expanded grammar on the implementation.',
+   note=TB + 'hashing of argument values as memo keys is outside the model (unhashable arguments are simply not memoised). Known findings: names used only in inline Python / counts of an argument are not captured (three catalogue sites).',
+   technique='Coq refinement proof (closure semantics of template calls) + differential correspondence and hand expansions',
    ref='DESIGN.md §6 C06'),
  'C07': dict(
    text='Coq theorems on a machine model of _run (explicit stack of suspended generators, memo, value being sent, log of body '
